@@ -12,16 +12,24 @@ init: `binary ws` | `compressed ws` | `remainders ws` | `raw comp rems hc hr`
 ops:  `dec b cdf` · `enc b cum p` · `encnone b` · `encsym b cdf s` · `encs b form cdf syms errAt`
       · `decs b form cdf n errAt` · `cp q` · `incp q` · `decp q` · `whole` · `raw` · `intorem`
       · `intocomp` · `intobin` · `reimport 1|2` · `final comp|bin` · `mex` · `mfull` · `clone`
-      · `snap` · `seekto i`
+      · `snap` · `seekto i` · `undo` · `undoall`
 
 `chainsweep W S P B kind lo hi` → `count digest` (complete single-step sweeps through raw heads).
 -/
 namespace CV.Driver.Chain
 open CV CV.Driver CV.Chain
 
+/-- what `undo` re-does: a decoded symbol (to be encoded back with the same model) or a
+    precision change (to be reverted) -/
+inductive Ghost where
+  | sym (b : Nat) (cdf : List Nat) (s : Nat)
+  | prec (oldP : Nat)
+
 structure St where
   x : Coder
   P : Nat
+  /-- newest first -/
+  ghost : List Ghost := []
   /-- the `prefix` put away by `reimport 1` -/
   stash : List Nat := []
   /-- `(P, pos)` snapshots, newest first -/
@@ -87,14 +95,15 @@ def encLoop (c : Cfg) (t : List Nat) : Coder → List (Option Nat) → (Coder ×
     | .ok y => encLoop c t y rest
     | .error e => (x, (encErrStr e).1, (encErrStr e).2)
 
-def decLoop (c : Cfg) (t : List Nat) : Coder → List Bool → List Nat → (Coder × String × Bool)
-  | x, [], acc => (x, showList acc.reverse, false)
-  | x, true :: _, acc => (x, showList acc.reverse ++ " modelerr", false)
+/-- returns the coder, the symbols decoded (newest first), the output and the `dead` flag -/
+def decLoop (c : Cfg) (t : List Nat) : Coder → List Bool → List Nat → (Coder × List Nat × String × Bool)
+  | x, [], acc => (x, acc, showList acc.reverse, false)
+  | x, true :: _, acc => (x, acc, showList acc.reverse ++ " modelerr", false)
   | x, false :: rest, acc =>
     match decode c (tableModel t) x with
     | .ok (s, y) => decLoop c t y rest (s :: acc)
-    | .error .outOfData => (x, showList acc.reverse ++ " out_of_data", false)
-    | .error (.fault f) => (x, faultStr f, true)
+    | .error .outOfData => (x, acc, showList acc.reverse ++ " out_of_data", false)
+    | .error (.fault f) => (x, acc, faultStr f, true)
 
 def parseOptIdx (s : String) : Option (Option Nat) :=
   if s == "-" then some none else (parseHex s).map some
@@ -103,6 +112,29 @@ def listGet? : List α → Nat → Option α
   | [], _ => none
   | a :: _, 0 => some a
   | _ :: l, n + 1 => listGet? l n
+
+/-- `undo`: re-encode the most recently decoded symbol with its model, or revert the most
+    recent precision change (`change_precision` back to the old precision) -/
+def undoOne (W S : Nat) (st : St) : St × String × Bool :=
+  match st.ghost with
+  | [] => (st, "empty", false)
+  | .sym b t s :: rest =>
+    let st := { st with ghost := rest }
+    match encode (cfgOf W S st.P b) (tableModel t) s st.x with
+    | .ok y => ({ st with x := y }, "ok", false)
+    | .error e => (st, (encErrStr e).1, (encErrStr e).2)
+  | .prec q :: rest =>
+    let st := { st with ghost := rest }
+    match changePrecision (cfgOf W S st.P st.P) q st.x with
+    | .ok y => ({ st with x := y, P := q }, "ok", false)
+    | .error e => (st, (encErrStr e).1, (encErrStr e).2)
+
+def undoAll (W S : Nat) : Nat → St → Nat → St × String × Bool
+  | 0, st, n => (st, toHex n ++ " ok", false)
+  | fuel + 1, st, n =>
+    if st.ghost.isEmpty then (st, toHex n ++ " ok", false) else
+    let (st', out, dead) := undoOne W S st
+    if out == "ok" then undoAll W S fuel st' (n + 1) else (st', toHex n ++ " " ++ out, dead)
 
 /-- one op; returns new state, output, and whether the history died (panic) -/
 def doOp (W S : Nat) (st : St) (seg : List String) : Option (St × String × Bool) :=
@@ -113,7 +145,7 @@ def doOp (W S : Nat) (st : St) (seg : List String) : Option (St × String × Boo
       let c := cfgOf W S st.P (← parseHex b)
       let t ← parseList cdf
       match decode c (tableModel t) x with
-      | .ok (s, y) => some ({ st with x := y }, toHex s, false)
+      | .ok (s, y) => some ({ st with x := y, ghost := .sym c.B t s :: st.ghost }, toHex s, false)
       | .error .outOfData => some (st, "out_of_data", false)
       | .error (.fault f) => some (st, faultStr f, true)
   | ["enc", b, cum, pr] => do
@@ -144,7 +176,8 @@ def doOp (W S : Nat) (st : St) (seg : List String) : Option (St × String × Boo
       let errAt ← parseOptIdx errAt
       if form > 2 then none else
       let items : List Bool := (List.range n).map (fun i => form == 1 && errAt == some i)
-      some (upd (decLoop c t x items []))
+      let (y, acc, out, dead) := decLoop c t x items []
+      some ({ st with x := y, ghost := acc.map (Ghost.sym c.B t) ++ st.ghost }, out, dead)
   | [op, q] =>
       if op == "cp" || op == "incp" || op == "decp" then do
         let q ← parseHex q
@@ -157,7 +190,7 @@ def doOp (W S : Nat) (st : St) (seg : List String) : Option (St × String × Boo
           else if op == "incp" then .ok (increasePrecision c q x)
           else decreasePrecision c q x
         match r with
-        | .ok y => some ({ st with x := y, P := q }, "ok", false)
+        | .ok y => some ({ st with x := y, P := q, ghost := .prec st.P :: st.ghost }, "ok", false)
         | .error e => some (st, (encErrStr e).1, (encErrStr e).2)
       else if op == "reimport" then do
         let k ← parseHex q
@@ -192,6 +225,8 @@ def doOp (W S : Nat) (st : St) (seg : List String) : Option (St × String × Boo
           let (y, ok) := seek x pos
           some ({ st with x := y }, if ok then "ok" else "err", false)
       else none
+  | ["undo"] => some (undoOne W S st)
+  | ["undoall"] => some (undoAll W S st.ghost.length st 0)
   | ["whole"] => some (st, showBool (isWhole x), false)
   | ["raw"] => some (st, showRaw x ++ " " ++ toHex st.P, false)
   | ["intorem"] =>
